@@ -33,6 +33,12 @@ type YAMLAccountManager struct {
 	// lives in that file: edits, renames and deletions go to it, not to a second file named after the login.
 	files map[string]string
 
+	// leftovers holds, per login, the other files in the directory that name the same login: superseded copies (an
+	// operator's file in the older format after its migration, what a crashed rename left).  They are ignored when
+	// loading as long as the account's own file exists; they go away with the next edit, rename or deletion of the
+	// account, so that they cannot bring an old state of it back.
+	leftovers map[string][]string
+
 	mu sync.Mutex
 }
 
@@ -41,6 +47,7 @@ func NewYAMLAccountManager(accountDir string) (*YAMLAccountManager, error) {
 		accountDir: accountDir,
 		accounts:   make(map[string]hotline.Account),
 		files:      make(map[string]string),
+		leftovers:  make(map[string][]string),
 	}
 
 	matches, err := filepath.Glob(filepath.Join(accountDir, "*.yaml"))
@@ -67,6 +74,7 @@ func NewYAMLAccountManager(accountDir string) (*YAMLAccountManager, error) {
 		ownFile := accountMgr.loginFile(account.Login)
 		if filePath != ownFile {
 			if _, err := os.Stat(ownFile); err == nil {
+				accountMgr.leftovers[account.Login] = append(accountMgr.leftovers[account.Login], filePath)
 				continue
 			}
 		}
@@ -82,6 +90,9 @@ func NewYAMLAccountManager(accountDir string) (*YAMLAccountManager, error) {
 		if filePath != ownFile {
 			if _, err := os.Stat(ownFile); err != nil {
 				accountMgr.files[account.Login] = filePath
+			} else {
+				// the migration above has given the account a file of its own
+				accountMgr.leftovers[account.Login] = append(accountMgr.leftovers[account.Login], filePath)
 			}
 		}
 
@@ -94,6 +105,15 @@ func NewYAMLAccountManager(accountDir string) (*YAMLAccountManager, error) {
 // loginFile is the name of the file an account is created in.
 func (am *YAMLAccountManager) loginFile(login string) string {
 	return filepath.Join(am.accountDir, path.Join("/", login+".yaml"))
+}
+
+// dropLeftovers removes the superseded copies of an account's file.  Called (with the lock held) once the account's own
+// file has been rewritten, renamed or removed.
+func (am *YAMLAccountManager) dropLeftovers(login string) {
+	for _, f := range am.leftovers[login] {
+		_ = os.Remove(f)
+	}
+	delete(am.leftovers, login)
 }
 
 // accountFile is the file that holds the account.
@@ -134,6 +154,7 @@ func (am *YAMLAccountManager) Update(account hotline.Account, newLogin string) e
 	defer am.mu.Unlock()
 
 	accountFile := am.accountFile(account.Login)
+	oldLogin := account.Login
 
 	// If the login has changed, rename the account file.
 	if account.Login != newLogin {
@@ -164,6 +185,7 @@ func (am *YAMLAccountManager) Update(account hotline.Account, newLogin string) e
 	if err := writeFileAtomic(accountFile, out, 0644); err != nil {
 		return fmt.Errorf("error writing account file: %w", err)
 	}
+	am.dropLeftovers(oldLogin)
 
 	am.accounts[account.Login] = account
 
@@ -203,6 +225,7 @@ func (am *YAMLAccountManager) Delete(login string) error {
 		return fmt.Errorf("delete account file: %v", err)
 	}
 
+	am.dropLeftovers(login)
 	delete(am.files, login)
 	delete(am.accounts, login)
 
